@@ -105,22 +105,28 @@ def strat_kinetics(ctx):
                                max_axis=3),
         "route": st.sampled_from(["ctor", "dict"]),
         "out": gen.us_mild,
-        "state_arg": st.booleans(),
+        "state_arg": st.sampled_from(["none", "copy", "converted"]),
+        "state_units": gen.us_any,
         "pick": st.integers(0, 10 ** 6),
     })
 
 
 def check_kinetics(ctx, c):
+    if isinstance(c.get("state_arg"), bool):      # replay files written before the 'converted' variant existed
+        c = dict(c, state_arg="copy" if c["state_arg"] else "none")
     spec = c["sys"]
     model = Model(spec)
     x = model.state()
     dx, sc = model.derivative(x)
-    ctx.note(c, nontrivial(spec, model, dx), classes_of(spec, model, dx) + ["route:" + c["route"]])
+    ctx.note(c, nontrivial(spec, model, dx), classes_of(spec, model, dx) + ["route:" + c["route"], "state-arg:" + c["state_arg"]])
     system = sut_call("build_system", B.build_system, spec, c["route"])
     U = B.US(c["out"])
     kw = {"units_system": U}
-    if c["state_arg"]:
+    if c["state_arg"] == "copy":
         kw["state"] = system.state.copy()
+    elif c["state_arg"] == "converted":
+        # the same physical state handed over in another amount unit
+        kw["state"] = sut_call("state.convert", system.state.convert, B.US(c["state_units"]))
     got = sut_call("compute_dstatedt", K.compute_dstatedt, system, **kw)
     check_dim_rate(got, "compute_dstatedt")
     for k in ("time", "quantity"):
